@@ -6,11 +6,12 @@ class C28(vlib.Spec):
     model_vo = ["theories/Hydro/ModelFlows.vo"]
     props_vo = "theories/Props/C28.vo"
     theorems = ["C28_partition_independent_modelled_ir", "C28_final_is_denotation_modelled_ir",
-                "C28_join_delta_tickinv", "C28_join_half_tickinv", "C28_generator_tickinv", "C28_holds_b_correct",
+                "C28_join_delta_tickinv", "C28_join_half_tickinv", "C28_generator_tickinv",
+                "C28_network_o2o_deterministic", "C28_holds_b_correct",
                 "C28_translated_terms_wf_check_sound"]
     crate, group, binary = "h_hydro", "hydro", "h_hydro"
     imports = "From HV Require Import Hydro.Model Hydro.ModelTick Hydro.ModelFlows."
-    level = "other"
+    level = "proof"
     fn = "chk28"
     prop = "C28"
     trusted_base = ["coqc 8.16.1 kernel (vm_compute used for case evaluation only)",
